@@ -52,7 +52,8 @@ Ids     == 1..MaxId
 NoInfo  == [c |-> "", st |-> ""]
 NoUpl   == [act |-> FALSE, key |-> "", st |-> "", parts |-> <<0, 0>>]
 GcIdle  == [pc |-> "idle", cut |-> {}, obs |-> {}, dirty |-> {}, todo |-> {}, st |-> "",
-            cand |-> {}, ext |-> {}, xid |-> 0]
+            cand |-> {}, ext |-> {}, xid |-> 0, trk |-> {}]
+NoSlow  == [act |-> FALSE, k |-> "", c |-> "", s |-> "", id |-> 0]
 RdIdle  == [st |-> "idle", key |-> "", man |-> <<>>, pos |-> 0, cur |-> 0, got |-> <<>>,
             err |-> FALSE, snap |-> {}]
 
@@ -69,6 +70,7 @@ S0 == [obj    |-> [k \in Keys |-> <<>>],          \* key -> manifest (part ids);
        stray  |-> {},                             \* crash leftovers no part listing shows: [kind, st]
        gc     |-> GcIdle,
        rd     |-> RdIdle,
+       slow   |-> NoSlow,                         \* a PutObject whose transaction is open (id minted, not committed)
        res    |-> "",
        nops   |-> 0,
        nrd    |-> 0,
@@ -158,6 +160,34 @@ PutEff(S, k, c, s) ==
       W1 == RemoveRefs(d.w, S.obj[k])
       W2 == IF d.pre THEN W1 ELSE Register(W1, <<d.id>>)
   IN Commit(S, W2, [S.obj EXCEPT ![k] = <<d.id>>], S.upl, "ok")
+
+\* A slow PutObject: PutBegin mints the part id and opens the write transaction
+\* (the body is still streaming: the SQLite writer lock is held, nothing is
+\* visible); PutCommit is the rest of PutObject.  Between the two the clock and
+\* the read-only / tx-free sections of the collector and the reader can run, so
+\* the part can be older than the grace window when it becomes visible.
+PutBeginEff(S, k, c, s) ==
+  [S EXCEPT !.slow = [act |-> TRUE, k |-> k, c |-> c, s |-> s, id |-> S.nid],
+            !.info[S.nid] = [c |-> c, st |-> s], !.nid = @ + 1, !.res = "ok", !.nops = @ + 1]
+
+PutCommitEff(S) ==
+  LET sl == S.slow
+      f  == sl.id
+      W0 == Begin(S)
+      es == Entries(W0, sl.s, sl.c)
+      share == es # {} /\ Addable(W0, (CHOOSE x \in es : TRUE).id)
+      d  == IF share
+            THEN LET e == CHOOSE x \in es : TRUE IN
+                 \* the fresh part is deleted again in the same transaction: it was never visible
+                 [w |-> [AddRefs(W0, <<e.id>>) EXCEPT !.nid = f, !.info[f] = NoInfo], id |-> e.id, pre |-> TRUE]
+            ELSE LET Wd == IF es # {} THEN DropEntriesOf(W0, (CHOOSE x \in es : TRUE).id) ELSE W0 IN
+                 [w |-> [TryIndex(Wd, sl.s, sl.c, f) EXCEPT !.padd = @ \cup {f}], id |-> f, pre |-> FALSE]
+      W1 == RemoveRefs(d.w, S.obj[sl.k])
+      W2 == IF d.pre THEN W1 ELSE Register(W1, <<d.id>>)
+      T  == Commit(S, W2, [S.obj EXCEPT ![sl.k] = <<d.id>>], S.upl, "ok")
+  IN [T EXCEPT !.slow = NoSlow,
+               !.old = IF share THEN @ \ {f} ELSE @,
+               !.gc.cut = IF share THEN @ \ {f} ELSE @]
 
 DeleteEff(S, k) ==
   Commit(S, RemoveRefs(Begin(S), S.obj[k]), [S.obj EXCEPT ![k] = <<>>], S.upl, "ok")
@@ -314,6 +344,7 @@ DedupPruned(S) ==
 
 \* partregistry.Condemn inside the condemn transaction
 CondemnOK(S, id) ==
+  IF "H-C08-snapshot-orphans" \in Deviations /\ id \notin S.gc.trk THEN TRUE ELSE
   IF "H-C08-condemn-no-recount" \in Deviations
   THEN S.reg[id] = -1 \/ S.reg[id] = 0
   ELSE (S.reg[id] = -1 \/ S.reg[id] = 0) /\ RowCount(S, id) = 0
@@ -333,7 +364,9 @@ GcEff(S, nxt, x) ==
   CASE G.pc = "idle" ->
          [S EXCEPT !.gc = [GcIdle EXCEPT !.pc = "begin", !.cut = S.old], !.res = "begin"]
     [] G.pc = "begin" ->
-         [S EXCEPT !.gc.pc = "observed", !.gc.obs = Obs(S), !.gc.dirty = {}, !.res = "observed"]
+         [S EXCEPT !.gc.pc = "observed", !.gc.obs = Obs(S), !.gc.dirty = {},
+                   !.gc.trk = IF "H-C08-snapshot-orphans" \in Deviations THEN {o.id : o \in Obs(S)} ELSE {},
+                   !.res = "observed"]
     [] G.pc = "observed" ->
          [S EXCEPT !.reg = Reconciled(S), !.gc.pc = "reconciled", !.gc.obs = {}, !.gc.dirty = {},
                    !.res = "reconciled"]
@@ -409,6 +442,8 @@ Call(op, k, c, s, u, n, src, j) ==
 
 Eff(S, a) ==
   CASE a.op = "Put"            -> PutEff(S, a.k, a.c, a.s)
+    [] a.op = "PutBegin"       -> PutBeginEff(S, a.k, a.c, a.s)
+    [] a.op = "PutCommit"      -> PutCommitEff(S)
     [] a.op = "Delete"         -> DeleteEff(S, a.k)
     [] a.op = "Copy"           -> CopyEff(S, a.src, a.k, a.s)
     [] a.op = "Transition"     -> TransitionEff(S, a.k, a.s)
@@ -431,9 +466,12 @@ Eff(S, a) ==
 
 \* ------------------------------------------------ enabled calls of a state
 Room(S)   == S.nid + 2 <= MaxId + 1        \* an operation mints at most two ids
-Active(S) == ~S.quiet /\ S.nops < MaxOps
+Active(S) == ~S.quiet /\ S.nops < MaxOps /\ ~S.slow.act   \* an open slow put holds the writer lock
 
 PutCalls(S)    == IF Active(S) /\ Room(S) THEN {Call("Put", k, c, s, "", 0, "", 0) : k \in Keys, c \in Contents, s \in Stores} ELSE {}
+SlowCalls(S)   == IF S.slow.act THEN {Call("PutCommit", "", "", "", "", 0, "", 0)}
+                  ELSE IF Active(S) /\ Room(S) /\ "slow" \in Faults
+                       THEN {Call("PutBegin", k, c, s, "", 0, "", 0) : k \in Keys, c \in Contents, s \in Stores} ELSE {}
 DeleteCalls(S) == IF Active(S) THEN {Call("Delete", k, "", "", "", 0, "", 0) : k \in {x \in Keys : S.obj[x] # <<>>}} ELSE {}
 CopyCalls(S)   == IF Active(S) /\ Room(S)
                   THEN {Call("Copy", k, "", s, "", 0, src, 0) : k \in Keys, s \in Stores, src \in {x \in Keys : S.obj[x] # <<>>}} ELSE {}
@@ -458,16 +496,21 @@ RegDropCalls(S) == IF Active(S) /\ "regdrop" \in Faults
 RegOverCalls(S) == IF Active(S) /\ "regover" \in Faults
                    THEN {Call("RegOver", k, "", "", "", 0, "", 0) : k \in {x \in Keys : S.obj[x] # <<>> /\ S.reg[S.obj[x][1]] > 0}} ELSE {}
 TickCalls(S)   == IF S.old # Minted(S) THEN {Call("Tick", "", "", "", "", 0, "", 0)} ELSE {}
-GcCalls(S)     == {Call("Gc", "", "", a[1], "", a[2], "", 0) : a \in GcArgs(S)}
+\* sections of the pass that open a write transaction wait for the writer lock
+GcNeedsLock(S) == \/ S.gc.pc = "observed" /\ S.gc.obs # {}
+                  \/ S.gc.pc = "reconciled"
+                  \/ S.gc.pc = "candidates" /\ S.gc.cand # {}
+GcCalls(S)     == IF S.slow.act /\ GcNeedsLock(S) THEN {}
+                  ELSE {Call("Gc", "", "", a[1], "", a[2], "", 0) : a \in GcArgs(S)}
 RdCalls(S)     ==
   CASE S.rd.st = "idle" -> IF ~S.quiet /\ S.nrd < MaxReads
                            THEN {Call("RdResolve", k, "", "", "", 0, "", 0) : k \in {x \in Keys : S.obj[x] # <<>>}} ELSE {}
     [] S.rd.st = "open" -> IF S.rd.cur = 0 THEN {Call("RdOpen", "", "", "", "", 0, "", 0)}
                            ELSE {Call("RdRead", "", "", "", "", 0, "", 0)}
     [] S.rd.st = "done" -> {Call("RdClose", "", "", "", "", 0, "", 0)}
-QuiesceCalls(S) == IF "quiesce" \in Faults /\ ~S.quiet /\ S.rd.st = "idle" THEN {Call("Quiesce", "", "", "", "", 0, "", 0)} ELSE {}
+QuiesceCalls(S) == IF "quiesce" \in Faults /\ ~S.quiet /\ S.rd.st = "idle" /\ ~S.slow.act THEN {Call("Quiesce", "", "", "", "", 0, "", 0)} ELSE {}
 
-WriterCalls(S) == PutCalls(S) \cup DeleteCalls(S) \cup CopyCalls(S) \cup TransCalls(S) \cup CreateCalls(S)
+WriterCalls(S) == PutCalls(S) \cup SlowCalls(S) \cup DeleteCalls(S) \cup CopyCalls(S) \cup TransCalls(S) \cup CreateCalls(S)
                   \cup UpPartCalls(S) \cup UpCopyCalls(S) \cup CompleteCalls(S) \cup AbortCalls(S)
 StrayCalls(S)  == IF Active(S) /\ "crash" \in Faults
                   THEN {Call("Stray", "", kind, s, "", 0, "", 0) : kind \in {"temp", "backup"}, s \in Stores \cap TxFree} ELSE {}
@@ -478,7 +521,7 @@ AllCalls(S)    == WriterCalls(S) \cup FaultCalls(S) \cup TickCalls(S) \cup GcCal
 VARIABLE S
 Do(calls) == \E a \in calls : S' = Eff(S, a)
 
-APut        == Do(PutCalls(S))
+APut        == Do(PutCalls(S) \cup SlowCalls(S))
 ADelete     == Do(DeleteCalls(S))
 ACopy       == Do(CopyCalls(S))
 ATransition == Do(TransCalls(S))
